@@ -197,7 +197,7 @@ class ProgGen:
                 a, b = rng.choice(both_app)
             elif pairs and rng.random() < 0.7:
                 a, b = rng.choice(pairs)
-            return {"id": sid, "k": "cross", "a": a, "b": b, "op": rng.choice(["add", "sub", "mul", "div", "lt", "ge", "le", "gt"])}
+            return {"id": sid, "k": "cross", "a": a, "b": b, "op": rng.choice(["add", "sub", "mul", "div", "lt", "ge", "le", "gt", "pow", "floordiv", "mod", "np_add", "np_multiply"])}
         if r < 0.97:
             return {"id": sid, "k": "touch_lazy", "how": rng.choice(["getattr", "call", "item", "setattr", "quantity"])}
         return {"id": sid, "k": "gc"}
@@ -748,12 +748,16 @@ print('REMOTE ' + json.dumps(out))
         import operator
 
         op = {"add": operator.add, "sub": operator.sub, "mul": operator.mul, "div": operator.truediv, "lt": operator.lt,
-              "ge": operator.ge, "le": operator.le, "gt": operator.gt}[s["op"]]
+              "ge": operator.ge, "le": operator.le, "gt": operator.gt, "pow": operator.pow, "floordiv": operator.floordiv,
+              "mod": operator.mod, "np_add": lambda x, y: __import__("numpy").add(x, y),
+              "np_multiply": lambda x, y: __import__("numpy").multiply(x, y)}[s["op"]]
         same = a["obj"]._REGISTRY is b["obj"]._REGISTRY
         if s["op"] in ("lt", "ge", "le", "gt") and (a["kind"] != b["kind"] or a["kind"] == "m"):
             return "n/a"  # ordering is asked between two quantities or between two units
         if s["op"] in ("add", "sub") and (a["kind"] == "u" or b["kind"] == "u"):
             return "n/a"
+        if s["op"] in ("pow", "floordiv", "mod", "np_add", "np_multiply") and (a["kind"] != "q" or b["kind"] != "q"):
+            return "n/a"  # a quantity as exponent or divisor of a quantity
         try:
             op(a["obj"], b["obj"])
             out = "ok"
